@@ -356,6 +356,12 @@ class Scheduler:
                 self.clock.advance(min(a.wake_at for a in runnable) - now + 1e-6)  # type: ignore
                 self.count("clock_jumps")
             chosen = self.strategy.choose(n, runnable, self.current)
+            if chosen.wake_at is not None and chosen.wake_at > self.clock.now():
+                # an actor that resumes from sleep(d) has slept: at least d has passed for everybody. (Without this
+                # two pollers could be scheduled in turn for ever next to a runnable but unscheduled lock holder,
+                # with the clock standing still - a schedule no real system has.)
+                self.clock.advance(chosen.wake_at - self.clock.now() + 1e-9)
+                self.count("sleeps_elapsed")
             chosen.last_ran = n
             n += 1
             self.nstep = n
